@@ -32,7 +32,64 @@ def _module_for(prop):
     return importlib.import_module('engines.' + name)
 
 
+class WallHang(KeyboardInterrupt):
+    """One callback of the simulated loop did not return for HANG_S seconds of real time: code that loops without ever
+    yielding to the event loop.  (A KeyboardInterrupt, so that neither asyncio's task machinery nor an `except Exception`
+    of the code under test swallows it.)"""
+
+
+HANG_S = float(__import__('os').environ.get('VERIF_HANG_S', '40'))
+_hang = {}
+
+
+def _on_alarm(signum, frame):
+    import traceback
+    stack = traceback.extract_stack(frame)
+    inner = [f for f in stack if '/ndn/' in f.filename]
+    where = 'unknown'
+    if inner:
+        f = inner[-1]
+        mod = f.filename.split('/ndn/', 1)[1].rsplit('.py', 1)[0].replace('/', '.')
+        where = f'{mod}.{f.name}'
+    _hang['where'] = where
+    _hang['stack'] = [f'{f.filename.rsplit("/", 2)[-2]}/{f.filename.rsplit("/", 1)[-1]}:{f.lineno} {f.name}' for f in stack[-8:]]
+    raise WallHang(where)
+
+
 def execute(sc, keep_events=False):
+    """Run one scenario.  A step cap does not bound a loop that never yields: a real-time watchdog turns it into a violation."""
+    import signal
+    import threading
+    if HANG_S <= 0 or threading.current_thread() is not threading.main_thread():
+        return _execute(sc, keep_events)
+    _hang.clear()
+    old = signal.signal(signal.SIGALRM, _on_alarm)
+    signal.setitimer(signal.ITIMER_REAL, HANG_S)
+    res = None
+    try:
+        res = _execute(sc, keep_events)
+    except WallHang:
+        pass
+    finally:
+        signal.setitimer(signal.ITIMER_REAL, 0)
+        signal.signal(signal.SIGALRM, old)
+    if _hang:
+        from simkit.core import Result
+        prop = sc.get('property', '?')
+        r = res if res is not None else Result()
+        where = _hang.get('where', 'unknown')
+        r.violations = [v for v in r.violations] + [{
+            'property': prop, 'rule': 'hang', 'component': sc.get('engine', '?'), 'where': where,
+            'detail': f'the code under test kept the event loop busy for more than {HANG_S:.0f} s of real time without ever '
+                      f'yielding (innermost library frame {where}; stack tail: {" <- ".join(reversed(_hang.get("stack", [])[-5:]))})',
+            'signature': f'{prop}:hang:{sc.get("engine", "?")}:{where}'}]
+        r.nontrivial = True
+        _hang.clear()
+        return r
+    return res
+
+
+def _execute(sc, keep_events=False):
     eng = sc['engine']
     if eng == 'pipeline':
         from engines import pipeline
